@@ -155,7 +155,7 @@ class VLoop(asyncio.SelectorEventLoop):
 class P:
     __slots__ = ('pid', 'ppid', 'argv', 'env', 'cwd', 'beh', 'state', 'death_at', 'status',
                  'created', 'signals', 'popen_kw', 'tag', 'exit_t', 'reaped_by', 'cause',
-                 'spawn_no')
+                 'spawn_no', 'orig_ppid')
 
     def __init__(self, pid, ppid, argv, env, cwd, beh, now):
         self.pid, self.ppid, self.argv, self.env, self.cwd = pid, ppid, argv, env, cwd
@@ -171,6 +171,7 @@ class P:
         self.reaped_by = None
         self.cause = None         # 'self' | 'ext' | 'circus:<sig>'
         self.spawn_no = 0
+        self.orig_ppid = ppid
 
 
 DEFAULT_FATAL = {int(s) for s in (signal.SIGTERM, signal.SIGINT, signal.SIGQUIT, signal.SIGHUP,
